@@ -565,10 +565,11 @@ def run_op(u: Universe, op):
                 side = row.asks if name == "buy" else row.bids
                 if side:
                     lvl = side[mode[1] % len(side)]
+                    off = D(mode[2]) if len(mode) > 2 else D(1)
                     if mode[0] == "token":
-                        kw["price_in_token"] = D(str(lvl[0]))
+                        kw["price_in_token"] = D(str(lvl[0])) * off
                     else:
-                        kw["price_in_usd"] = D(str(lvl[0])) * D(str(row.underlying_price))
+                        kw["price_in_usd"] = D(str(lvl[0])) * D(str(row.underlying_price)) * off
             return getattr(m, name)(nme, D(args[1]), **kw)
         raise ValueError(op)
     if mkt == "glp":
